@@ -235,14 +235,34 @@ class _Pool:
             out[i] = f(*items[i]) if star else f(items[i])
         return out
 
-    def map(self, f, it):
+    def map(self, f, it, chunksize=None):
         return self._run(f, it, False)
 
-    def starmap(self, f, it):
+    def starmap(self, f, it, chunksize=None):
         return self._run(f, it, True)
 
-    def map_async(self, f, it):
+    def map_async(self, f, it, chunksize=None):
         return _Async(self._run(f, it, False))
+
+    def starmap_async(self, f, it, chunksize=None):
+        return _Async(self._run(f, it, True))
+
+    def imap(self, f, it, chunksize=1):
+        return iter(self._run(f, it, False))
+
+    def imap_unordered(self, f, it, chunksize=1):
+        # results are handed back in COMPLETION order, which is the execution order of this runner
+        items = list(it)
+        order = list(range(len(items)))
+        if POOL_ORDER[0] == 'reverse':
+            order.reverse()
+        return iter([f(items[i]) for i in order])
+
+    def apply_async(self, f, args=(), kwds=None):
+        return _Async(f(*args, **(kwds or {})))
+
+    def apply(self, f, args=(), kwds=None):
+        return f(*args, **(kwds or {}))
 
 
 class FakeMP:
